@@ -58,7 +58,7 @@ ASSUMPTIONS = [
     "moves/removals through the experimental API target agents that are in the space",
 ]
 RULE = ("random histories over both classes (50/50; 10% from the rejecting-call stream of C18): bounds with negative / non-unit origins and sizes 1/64 .. 15.6, torus on/off, "
-        "experimental: 2-D/3-D and initial capacities {0,1,2,3,5,50,100}; 4-45 ops from place/new+set, move/set (12% per-axis out of bounds, "
+        "experimental: 1-D .. 5-D (2-D and 3-D most often) and initial capacities {0,1,2,3,5,50,100}; 4-45 ops from place/new+set, move/set (12% per-axis out of bounds, "
         "coincident and boundary positions), remove, pos, agents, radius / k-nearest (k in 0..n+1, often n) / neighbour queries incl. on the "
         "empty space and right after a cached read + move, distances and heading/difference vectors; radii aimed at exact agent distances; "
         "non-trivial = >= 2 agents in the space at some point, a mutation after the first query and a query answer naming an agent; "
